@@ -87,12 +87,13 @@ class Artefacts:
             parts = {str(k): self.of(v, dict(t, targets=None)) for k, v in res.items()}
             keys = sorted(parts)
             anfs = [parts[k].get("anf") for k in keys]
+            # value / structure digests are key-free (keys may contain configured tensor
+            # names, e.g. 'no_X'); the keys themselves are compared in default-name runs
             return {"kind": "dict", "keys": keys,
-                    "anf": None if any(x is None for x in anfs) else digest(
-                        list(zip(keys, anfs)), 10),
+                    "anf": None if any(x is None for x in anfs) else digest(sorted(anfs), 10),
                     "text": digest([(k, parts[k].get("text")) for k in keys], 10),
-                    "fp": digest([(k, parts[k].get("fp")) for k in keys], 10),
-                    "skel": digest([(k, parts[k].get("skel")) for k in keys], 8),
+                    "fp": digest(sorted(str(parts[k].get("fp")) for k in keys), 10),
+                    "skel": digest(sorted(str(parts[k].get("skel")) for k in keys), 8),
                     "nterms": sum(parts[k].get("nterms", 0) for k in keys),
                     "full": {k: parts[k].get("full") for k in keys}}
         if isinstance(res, Expr):
